@@ -17,10 +17,10 @@ import itertools
 import re
 
 from ..interp import Interp, Hooks, Budget
-from ..state import IntV, PtrV, NULL
+from ..state import State, Obj, IntV, PtrV, NULL
 from ..terms import Lin, ZERO
 from .. import cquery
-from . import conv, c03
+from . import conv, c03, own
 from .common import short, fn_loc
 
 LEVEL = 'proof'
@@ -566,6 +566,126 @@ def constants(run, m):
     run.ob('R02.6', 'badchar_substitute_utf8', ok, 'EF BF BD (U+FFFD), accepted by the 3-byte row of the table' if ok else 'substitute text is %r' % (data,))
 
 
+SCOPE_RE = re.compile(r'^ST::operator\+\((ST::string const&, (?:char|char8_t) const\*|(?:char|char8_t) const\*, ST::string const&)\)$')
+
+
+def region_sources(st, ptr, nbytes, depth=0):
+    """Root objects whose bytes the range [ptr, ptr + nbytes) holds, following bulk copies through temporaries: a set of object
+    names; None stands for bytes of unknown origin.  Regions are looked at from the most recent back; one that covers the whole
+    range shadows everything older."""
+    o = st.objs.get(ptr.obj)
+    if o is None:
+        return set([None])
+    out = set()
+    for (roff, rlen, tag, ver) in reversed(o.regions):
+        rl = rlen if isinstance(rlen, Lin) else Lin.const(rlen)
+        if tag[0] == 'val' or st.is_eq0(rl) is True:
+            continue
+        if st.is_ge0(roff - ptr.off - nbytes) is True or st.is_ge0(ptr.off - roff - rl) is True:
+            continue                    # disjoint from the range
+        if tag[0] == 'copy' and isinstance(tag[1], PtrV) and tag[1].obj is not None:
+            src = tag[1]
+            so = st.objs.get(src.obj)
+            # the part of the source that lands in the range
+            lo = ptr.off - roff
+            part = PtrV(src.obj, src.off + lo) if st.is_ge0(lo) is True else PtrV(src.obj, src.off)
+            plen = nbytes if st.is_ge0(lo) is True and st.is_ge0(roff + rl - ptr.off - nbytes) is True else rl
+            if so is not None and depth < 5 and any(r[2][0] in ('copy', 'fill', 'havoc') for r in so.regions):
+                out |= region_sources(st, part, plen, depth + 1)
+            else:
+                out.add(src.obj)
+        else:
+            out.add(None)
+        if st.is_ge0(ptr.off - roff) is True and st.is_ge0(roff + rl - ptr.off - nbytes) is True:
+            return out                  # covers the whole range: nothing older shows through
+    if not out:
+        out.add(ptr.obj)
+    return out
+
+
+def validation_scope(run, m, F, E):
+    """R02.8: concatenating raw text to a string validates the raw text - all of it and nothing else.  The range handed to the
+    validator (validate_utf8 / cleanup_utf8_buffer) in operator+(string, const char*) and its mirror must consist of bytes of the
+    raw operand only: a range that also holds bytes of the ST::string operand judges the *joined* text, so that two pieces which are
+    ill-formed on their own but complete each other are accepted (and well-formed raw text is rejected next to stored junk)."""
+    from .c08 import string_scene, SliceHooks
+    L = own.buffer_layout(m, 'char')
+    n = 0
+    for name in F.lib:
+        f = m.func(name)
+        mt = SCOPE_RE.match(f.dem)
+        if not mt or L is None:
+            continue
+        n += 1
+        raw_first = not mt.group(1).startswith('ST::string')
+        probs, und, good = [], [], 0
+        for cls in ('small', 'large'):
+            def stop(I, st, inst, d, args):
+                if d.startswith('_ST_PRIVATE::validate_utf8(char const*, unsigned long)'):
+                    sz = I.as_u(st, args[1]) if isinstance(args[1], IntV) else None
+                    srcs = region_sources(st, args[0], sz) if isinstance(args[0], PtrV) and sz is not None and args[0].obj != 'RAW' else set(['RAW'])
+                    st.ev('validate', inst, args[0], sz, srcs)          # (origin of the bytes as of this call)
+                    return [(st, IntV(32, ZERO, 'u'))]
+                if d.startswith('_ST_PRIVATE::cleanup_utf8_buffer('):
+                    b = args[-1]
+                    if isinstance(b, PtrV) and b.obj in st.objs:
+                        dp = I.load(st, inst, PtrV(b.obj, b.off + L.chars_off), 'i8*', 8)
+                        sz = I.load(st, inst, PtrV(b.obj, b.off + L.size_off), 'i64', 8)
+                        szl = I.as_u(st, sz) if isinstance(sz, IntV) else None
+                        srcs = region_sources(st, dp, szl) if isinstance(dp, PtrV) and szl is not None and dp.obj != 'RAW' else set(['RAW'])
+                        st.ev('validate', inst, dp, szl, srcs)
+                    return None
+                return None
+            I = Interp(m, F, E, SliceHooks(m, stop))
+            st = State()
+            this, ret, entry = string_scene(I, st, L, cls)
+            st.rng['rawlen'] = (0, (1 << 28) - 1)
+            ro = Obj('ext', Lin.atom('rawlen') + 1)
+            ro.attrs['cstr_len'] = Lin.atom('rawlen')
+            st.objs['RAW'] = ro
+            args = [PtrV(ret)] + ([PtrV('RAW'), PtrV(this)] if raw_first else [PtrV(this), PtrV('RAW')])
+            try:
+                outs = I.run(I.start(f, args, st))
+            except Exception as e:
+                und.append('not interpreted: %s' % (str(e)[:80],))
+                continue
+            sto = entry['storage'].obj
+            for o in outs:
+                if o.kind != 'ret':
+                    continue
+                s2 = o.st
+                vals = [e for e in s2.events if e[0] == 'validate']
+                if s2.is_eq0(Lin.atom('rawlen')) is True and not vals:
+                    good += 1
+                    continue
+                if not vals:
+                    und.append('a result is returned without the raw text having been validated (this=%s)' % cls)
+                    continue
+                okpath = False
+                for e in vals:
+                    if not isinstance(e[2], PtrV) or e[3] is None:
+                        und.append('validated range not tracked')
+                        continue
+                    srcs = e[4]
+                    if sto in srcs or this in srcs:
+                        probs.append('the validator is handed a range that holds bytes of the ST::string operand as well as the raw text (line %d): '
+                                     'the joined text is judged, so raw text that is ill-formed on its own is accepted when the string\'s bytes '
+                                     'complete it (e.g. "caf\\xC3" taken with assume_valid, then + "\\xA9") and well-formed raw text is rejected '
+                                     'next to stored junk' % e[1].line)
+                    elif srcs == set(['RAW']) and s2.is_eq0(e[3] - Lin.atom('rawlen')) is True:
+                        okpath = True
+                    else:
+                        und.append('validated range holds bytes of %s, %r of them: not decided to be exactly the raw text' %
+                                   (sorted(str(x) for x in srcs), e[3]))
+                if okpath:
+                    good += 1
+        probs = sorted(set(probs))
+        run.ob('R02.8', short(f.dem), False if probs else (None if (und or not good) else True),
+               probs[0] if probs else (und[0] if und else ('exactly the raw operand [text, text + strlen) is validated on %d returning paths' % good
+                                                          if good else 'no returning path explored')), loc=fn_loc(f))
+    return n
+
+
 def check(run):
     m = run.module()
     F = run.facts()
@@ -581,6 +701,7 @@ def check(run):
     run.floor('error codes', error_mapping(run, m, F, E), 6)
     run.floor('set(char_buffer) dispatch cases', set_dispatch(run, m, F, E), 6)
     run.floor('default arguments spelled ST_DEFAULT_VALIDATION', defaults(run, m), 100)
+    run.floor('raw-text concatenation operators', validation_scope(run, m, F, E), 2)
     constants(run, m)
     for o in [o for o in run.obs if o['rule'] == 'R02.1'][:3] + [o for o in run.obs if o['rule'] == 'R02.2'][:3]:
         run.sample(dict(rule=o['rule'], subject=o['subject'], case=o['disc'], verdict=o['verdict'], detail=o['detail'][:160]))
